@@ -237,7 +237,7 @@ func (tdsChan *Channel) Logout() error {
 		return fmt.Errorf("expected done package in logout response, got: %v", pkg)
 	}
 
-	if done.Status&TDS_DONE_FINAL != TDS_DONE_FINAL {
+	if done.Status&TDS_DONE_MORE == TDS_DONE_MORE {
 		return fmt.Errorf("received done package with status %s instead of TDS_DONE_FINAL",
 			done.Status)
 	}
